@@ -2,10 +2,9 @@
 
 RuntimeInfo._get_record_runlog_items closes a run-log item at the first Completed / Failed / Cancelled state of an invocation and raises
 AssertionError("Error generating runlog") if the same invocation carries another state afterwards. The run log is therefore producible
-only if every instruction instance receives AT MOST ONE conclusive state. Contract on the real CommandManager._execute_command (UOD
-command requests; _execute_uod_command, _cancel_command and _finalize_command are followed, not abstracted): on every normal and
-exceptional exit, the conclusive tracking marks (mark_completed / mark_failed / mark_cancelled) issued for THIS request number at most
-one. The two scans that cancel other requests are under the same assumed loop contract as in C10 (they mark other requests only)."""
+only if every instruction instance receives AT MOST ONE conclusive state. Contract on the real CommandManager._execute_uod_command (its caller _execute_command
+marks the request Failed for every exception that escapes; _cancel_command under its C10 contract): on normal exit at most one conclusive
+tracking mark (mark_completed / mark_failed / mark_cancelled) was issued for THIS request, on exceptional exit none. The two scans that cancel other requests are under the same assumed loop contract as in C10 (they mark other requests only)."""
 import z3
 from pyvc.spec import Contract, LoopSpec
 import contracts.c10 as c10
@@ -39,16 +38,47 @@ not_internal.modifies = []
 CALLS = dict(c10.CALLS, **{"self.tracking.*": tracking_call, "EngineCommandEnum.has_value": not_internal})
 
 
+def cancel_call(ctx, args, kwargs):
+    """CommandManager._cancel_command(request): disposes the instance (contract proved in C10) and, unless the command had already
+    completed, marks the request Cancelled in tracking (read in the code: cmd.cancel(); tracking.mark_cancelled(request))"""
+    mc = kwargs.get("mark_cancelled", args[2] if len(args) > 2 else None)
+    if mc is not None:
+        from pyvc.smt import simplify_bool
+        if simplify_bool(ctx.truthy(mc)) is False:
+            return ctx.none()           # clean-up only: the tracking mark is suppressed by the caller
+    if ctx.choose(2, "_cancel_command: command already complete?") == 0:
+        ctx.ghost.setdefault("conclusive", []).append(("mark_cancelled", args[0]))
+    return ctx.none()
+
+
+cancel_call.modifies = []
+CALLS["self._cancel_command"] = cancel_call
+
+
 def on_exit(ctx, kind, result):
     req = ctx.local("cmd_request")
     marks = ctx.ghost.get("conclusive", [])
     total = z3.Sum([z3.If(m[1].term == req.term, 1, 0) for m in marks]) if marks else z3.IntVal(0)
+    total = z3.simplify(total)
     names = ",".join(m[0] for m in marks)
-    ctx.check_w("at-most-one-conclusive-state-for-this-request", total <= 1, lambda model: {"marks_in_order": names}, "postcondition")
+    if z3.is_int_value(total):          # every mark is syntactically for this request (or none): decided without the solver
+        n = total.as_long()
+        if kind == "return":
+            ctx.check_w("at-most-one-conclusive-state-for-this-request", z3.BoolVal(n <= 1), lambda model: {"marks_in_order": names}, "postcondition")
+        else:
+            ctx.check_w("no-conclusive-state-before-the-failure-is-recorded", z3.BoolVal(n == 0),
+                        lambda model: {"marks_in_order": names + ",mark_failed(by _execute_command)"}, "exceptional-postcondition")
+        return
+    if kind == "return":
+        ctx.check_w("at-most-one-conclusive-state-for-this-request", total <= 1, lambda model: {"marks_in_order": names}, "postcondition")
+    else:
+        # the caller (_execute_command) marks the request Failed for every exception that escapes: no conclusive state may precede it
+        ctx.check_w("no-conclusive-state-before-the-failure-is-recorded", total == 0,
+                    lambda model: {"marks_in_order": names + ",mark_failed(by _execute_command)"}, "exceptional-postcondition")
 
 
 execute_command = Contract(
-    target=CM + "_execute_command", types=c10.TYPES, calls=CALLS, options=c10.OPTS, raises=None, on_exit=on_exit,
+    target=CM + "_execute_uod_command", types=c10.TYPES, calls=CALLS, options=c10.OPTS, raises=None, on_exit=on_exit,
     requires=[c10.REP, "cmd_request.name is not None and cmd_request.name.strip() != ''", f"cmd_request not in {c10.DONE}",
               "all(r.name.strip() != '' for r in self.cmd_executing)"],
     loops={"for c in self.currently_executing": LoopSpec(invariant=c10.LOOP_INV, assumed=True),
@@ -64,3 +94,22 @@ TRUSTED = ["ASSUMED (not proved): the two scans at the top of _execute_uod_comma
 CLAUSES = {"for any execution the run log can be produced": "necessary condition on the producer side for UOD command requests: at most one conclusive state per execution (all paths of _execute_command, including failing callbacks)",
            "ordered by start time, distinct ids, no item ends before it starts, conclusive items have an end time and are not cancellable/forcible, completed instructions appear": "NOT covered"}
 EXPLANATION = "Partial claim: ghost count of conclusive tracking marks per request on every exit of CommandManager._execute_command."
+
+
+def replay(obligation, witness):
+    import contracts.c15_native as n
+    r = n.failing_uod_command_keeps_the_run_log_producible()
+    return {"confirmed": bool(r["violated"]), **r}
+
+
+REPLAY_WITHOUT_WITNESS = True
+
+
+def _nat():
+    import contracts.c15_native as n
+    r = n.failing_uod_command_keeps_the_run_log_producible()
+    return {"ok": not r["violated"], "observation": r}
+
+
+NATIVE = [("native:failing-uod-command-keeps-the-run-log-producible", _nat)]
+BOUNDED = ["one native scenario on the real engine (UOD command whose callback raises): bounded, not counted"]
